@@ -11,6 +11,9 @@ import json, os, shutil, subprocess, sys, time
 HERE = os.path.dirname(os.path.dirname(os.path.abspath(__file__)))
 SEEDED = os.path.join(HERE, "seeded")
 PY = "/venv/bin/python"
+# the working tree the changes are applied to: /repo itself (applied, checked, undone straight away), or a scratch clone of it when the
+# evaluation runs in a private copy of /verif (see `isolated`) so that work on /verif can go on meanwhile
+REPO = os.environ.get("SEEDED_REPO", "/repo")
 
 
 def sh(cmd, cwd=None, timeout=1800):
@@ -52,12 +55,14 @@ def ingest(prop, ks, root="/tmp/mut", tag=""):
 
 def evaluate(ids, all_checks=False):
     ids = ids or sorted(os.listdir(SEEDED))
-    rc, out = sh("git status --porcelain", cwd="/repo")
-    assert out.strip() == "", "/repo not clean: " + out
+    rc, out = sh("git status --porcelain", cwd=REPO)
+    assert out.strip() == "", REPO + " not clean: " + out
+    env_note = {} if REPO == "/repo" else {"MPILOT_REPO": REPO}
+    os.environ.update(env_note)
     for sid in ids:
         d = os.path.join(SEEDED, sid)
         meta = json.load(open(os.path.join(d, "meta.json")))
-        rc, out = sh(["git", "-C", "/repo", "apply", os.path.join(d, "patch.diff")])
+        rc, out = sh(["git", "-C", REPO, "apply", os.path.join(d, "patch.diff")])
         if rc != 0:
             print(sid, "patch does not apply:", out.strip()[-200:]); continue
         res = {}
@@ -72,11 +77,27 @@ def evaluate(ids, all_checks=False):
                 v = [l for l in out.split("\n") if l.startswith("VIOLATION")]
                 res[p] = {"rc": rc, "violation_lines": v, "wall_s": round(time.time() - t0, 1), "tail": out.strip().split("\n")[-1][:300]}
         finally:
-            sh("git -C /repo checkout -- . && git -C /repo clean -fdq mpilot")
+            sh("git -C %s checkout -- . && git -C %s clean -fdq mpilot" % (REPO, REPO))
         meta["detection"] = res
         meta["detected_by"] = sorted(p for p, r in res.items() if r["rc"] == 1)
         json.dump(meta, open(os.path.join(d, "meta.json"), "w"), indent=1)
         print("%s: %s" % (sid, {p: (r["rc"], "nfif" if any("no-failing-input-found" in l for l in r["violation_lines"]) else "") for p, r in res.items()}))
+
+
+def isolated(ids):
+    """evaluate in a private copy of the committed+working /verif and a scratch clone of /repo; copy the meta.json files back"""
+    root = "/root/seeded_eval"
+    sh("rm -rf %s && mkdir -p %s" % (root, root))
+    sh("rsync -a --exclude .git %s/ %s/verif/" % (HERE, root))
+    sh("git clone -q /repo %s/repo" % root)
+    env = dict(os.environ, SEEDED_REPO=root + "/repo", MPILOT_REPO=root + "/repo")
+    p = subprocess.run([PY, "-m", "harness.seeded", "eval"] + list(ids), cwd=root + "/verif", env=env)
+    for sid in os.listdir(os.path.join(root, "verif", "seeded")):
+        src = os.path.join(root, "verif", "seeded", sid, "meta.json")
+        if os.path.exists(src) and os.path.isdir(os.path.join(SEEDED, sid)):
+            shutil.copy(src, os.path.join(SEEDED, sid, "meta.json"))
+    sh("rm -rf %s" % root)
+    return p.returncode
 
 
 def table():
@@ -98,5 +119,7 @@ if __name__ == "__main__":
     elif cmd == "eval":
         a = [x for x in sys.argv[2:] if x != "--all"]
         evaluate(a, "--all" in sys.argv)
+    elif cmd == "isolated":
+        sys.exit(isolated(sys.argv[2:]))
     elif cmd == "table":
         table()
